@@ -35,6 +35,7 @@ import (
 	"github.com/mdlayher/ethernet"
 	"github.com/mdlayher/ndp"
 	"github.com/prometheus/client_golang/prometheus"
+	"k8s.io/apimachinery/pkg/types"
 	"k8s.io/apimachinery/pkg/util/sets"
 )
 
@@ -932,4 +933,130 @@ func vaRunConc(out *vOut, r *rand.Rand, id int) {
 	}
 	term := cCtor("mk_tcase", cNi(id), cListN(seq(nreq)), "[]", cList(us), cList(coqReqs))
 	out.Case(id, "concurrent", term, map[string]any{"updates": len(ops), "requests": total, "overlapping": overlapped})
+}
+
+// ---------------------------------------------------------------- C20: the queue towards the gratuitous loop
+
+// TestVerifSpamQueue (used by ./check C20): "no deadlocks". The announcer is built as New()
+// builds it but with a SMALL queue towards the real spamLoop (production: 1024 entries, filled
+// when more addresses than that are re-processed in a burst), so that the queue is full while
+// the loop is busy.  Schedule 1 (deterministic): the queue is full, the loop is not consuming,
+// one more service is announced (its handler waits for room) — GetStatus / shouldAnnounce /
+// AnnounceName must still complete, and the handler completes once the loop runs.
+// Schedule 2: the real loop runs, many services are announced and re-processed for longer
+// than one 1.1 s period of the loop; a watchdog fails when no SetBalancer / GetStatus
+// completes for 3 s.
+func TestVerifSpamQueue(t *testing.T) {
+	out := vOpen()
+	defer out.Close()
+	r := vRand()
+	svc := func(i int) (string, IPAdvertisement) {
+		ip := net.IPv4(10, byte(i>>16), byte(i>>8), byte(i))
+		return fmt.Sprintf("ns/svc-%d", i), NewIPAdvertisement(ip, true, sets.New[string]())
+	}
+	within := func(d time.Duration, f func()) bool {
+		done := make(chan struct{})
+		go func() { f(); close(done) }()
+		select {
+		case <-done:
+			return true
+		case <-time.After(d):
+			return false
+		}
+	}
+
+	// schedule 1
+	capacity := 2 + r.Intn(14)
+	a := VerifNewQueue(log.NewNopLogger(), vaIfs, capacity)
+	for i := 0; i < capacity; i++ {
+		n, adv := svc(i)
+		if !within(3*time.Second, func() { a.SetBalancer(n, adv) }) {
+			out.Fail("c20-spam-queue-blocked", fmt.Sprintf("SetBalancer %d of %d did not complete although the queue (capacity %d) has room", i+1, capacity, capacity), map[string]any{"capacity": capacity})
+			return
+		}
+	}
+	lastName, lastAdv := svc(capacity)
+	handlerDone := make(chan struct{})
+	go func() { a.SetBalancer(lastName, lastAdv); close(handlerDone) }() // waits for room in the queue
+	time.Sleep(200 * time.Millisecond)
+	replay := map[string]any{"schedule": fmt.Sprintf("queue capacity %d; %d SetBalancer calls fill it while spamLoop is not consuming; SetBalancer #%d waits for room; then GetStatus / shouldAnnounce / AnnounceName are called", capacity, capacity, capacity+1),
+		"how": "./check C20 (go test -race -tags verif -run TestVerifSpamQueue$ ./internal/layer2 with the overlay harness)"}
+	var st []IPAdvertisement
+	var stMu sync.Mutex
+	fetchOK := within(3*time.Second, func() {
+		x := a.GetStatus(types.NamespacedName{Namespace: "ns", Name: fmt.Sprintf("svc-%d", capacity)})
+		stMu.Lock()
+		st = x
+		stMu.Unlock()
+	})
+	respOK := within(3*time.Second, func() { a.VerifShouldAnnounce(net.IPv4(10, 0, 0, 0), "eth0"); a.AnnounceName(lastName) })
+	if !fetchOK {
+		out.Fail("c20-deadlock-send-under-lock", "the layer-2 status fetcher GetStatus hangs: a service handler waits for room in the gratuitous queue while holding the announcer lock", replay)
+	}
+	if !respOK { // C13: a held address is not answered for
+		out.Fail("l2-responder-blocked", "the responders' shouldAnnounce (and AnnounceName) hang: no ARP/NDP request for an announced address is answered while a service handler waits for room in the gratuitous queue holding the announcer lock", replay)
+	}
+	stMu.Lock()
+	if fetchOK && (len(st) != 1 || !st[0].Equal(&lastAdv)) {
+		out.Fail("c20-spam-queue-status", fmt.Sprintf("GetStatus during the wait returned %v, want the new advertisement", st), replay)
+	}
+	stMu.Unlock()
+	a.VerifStartSpamLoop()
+	select {
+	case <-handlerDone:
+		out.Stat("spamqueue_handler_released_by_loop", 1)
+	case <-time.After(8 * time.Second):
+		out.Fail("c20-deadlock-send-under-lock", "the waiting service handler never completed after the gratuitous loop started draining the queue", replay)
+	}
+
+	// schedule 2
+	b := VerifNewQueue(log.NewNopLogger(), vaIfs, 4+r.Intn(60))
+	b.VerifStartSpamLoop()
+	services := 200 + r.Intn(200)
+	run := 1600 * time.Millisecond
+	if vThorough() {
+		run = 6 * time.Second
+	}
+	var progress, fetched atomic.Int64
+	var stop atomic.Bool
+	done := make(chan struct{})
+	go func() {
+		defer close(done)
+		for end := time.Now().Add(run); time.Now().Before(end) && !stop.Load(); {
+			for i := 0; i < services && !stop.Load(); i++ {
+				n, adv := svc(i)
+				b.SetBalancer(n, adv)
+				progress.Add(1)
+			}
+		}
+	}()
+	go func() {
+		for i := 0; !stop.Load(); i++ {
+			if len(b.GetStatus(types.NamespacedName{Namespace: "ns", Name: fmt.Sprintf("svc-%d", i%services)})) > 0 {
+				fetched.Add(1)
+			}
+			time.Sleep(200 * time.Microsecond)
+		}
+	}()
+	last, lastChange := int64(-1), time.Now()
+	for finished := false; !finished; {
+		select {
+		case <-done:
+			finished = true
+		case <-time.After(100 * time.Millisecond):
+		}
+		if p := progress.Load() + fetched.Load(); p != last {
+			last, lastChange = p, time.Now()
+		} else if time.Since(lastChange) > 3*time.Second {
+			out.Fail("c20-deadlock-send-under-lock",
+				fmt.Sprintf("deadlock: no SetBalancer / GetStatus completed in the last 3 s (stuck after %d service events): the handler waits for the gratuitous loop while holding the lock the loop needs", progress.Load()),
+				map[string]any{"schedule": fmt.Sprintf("queue capacity %d, real spamLoop; %d services announced and re-processed in a loop for %v (more than one 1.1 s period of the loop) while GetStatus is polled", cap(b.spamCh), services, run),
+					"how": replay["how"]})
+			finished = true
+		}
+	}
+	stop.Store(true)
+	out.Stat("spamqueue_service_events", int(progress.Load()))
+	out.Stat("spamqueue_status_fetches", int(fetched.Load()))
+	out.Case(0, "spam-queue", "tt", map[string]any{"capacity1": capacity, "capacity2": cap(b.spamCh), "services": services, "events": progress.Load()})
 }
